@@ -18,6 +18,7 @@ EXTENDS MultiParse, Json
 CONSTANTS Mode,      \* "faithful" | "intended"
           K,         \* parse_list: input sets of 1..K definitions of the universe
           KW,        \* parse_str_with_list: main + list of 0..KW-1 definitions
+          KB,        \* parse_str_with_list with a main schema that is no definition: lists of 1..KB definitions
           EmitScn    \* BOOLEAN
 
 (* ---- constructors of written forms ---- *)
@@ -108,7 +109,7 @@ ListScn(q) == ScnOf(ListId(q))
 ScenarioIds ==
   {ListId(q) : q \in IdxUpTo(K)}
   \cup UNION {{WithId(q, m) : m \in 1..Len(q)} : q \in IdxUpTo(KW)}
-  \cup (IF KW >= 2 THEN {BareId(q, b) : q \in IdxUpTo(2), b \in 1..Len(BareMains)} ELSE {})
+  \cup {BareId(q, b) : q \in IdxUpTo(KB), b \in 1..Len(BareMains)}
 
 (* ------------------------------------------------------------------ *)
 VARIABLES sid,        \* the scenario's identifier (constant along a behaviour)
@@ -128,7 +129,7 @@ NoOutcome == [status |-> "none", res |-> <<>>, main |-> NoTerm]
 
 Cur == [mode |-> Mode, ins |-> scn.ins, pending |-> pending, resolving |-> resolving, parsed |-> parsed,
         out |-> out, declared |-> IF Mode = "intended" THEN TLCEval(SeqRange(SetDefNames(scn))) ELSE {},
-        err |-> "", log |-> <<>>]
+        err |-> "", trace |-> TRUE, log |-> <<>>]
 
 ScnLine(s) ==
   [form |-> s.form, ins |-> s.ins, main |-> s.main, expect |-> Expect(s),
